@@ -239,17 +239,21 @@ def job_set_order():
         r0 = Signal(4, name_override="r0"); r1 = Signal(4, name_override="r1")
         mem = Memory(4, 8, name="storage")
         p = mem.get_port(write_capable=True)
+        mem2 = Memory(4, 8, name="storage")          # two memories with EQUAL names: which one gets the suffix must not depend on the order
+        p2 = mem2.get_port()
         inst = Instance("BLACKBOX", i_A=r0, o_Y=q, name="u0")
-        m.specials += mem, p, inst
+        q2 = Signal(4, name_override="q2")
+        m.specials += mem, p, mem2, p2, inst
+        m.comb += [p2.adr.eq(b[:3]), q2.eq(p2.dat_r)]
         m.sync += [r0.eq(a ^ p.dat_r), r1.eq(r0 + b)]
         m.comb += [p.adr.eq(a[:3]), p.dat_w.eq(r1), p.we.eq(b[0])]
         attrs0 = ["mr_ff", "async_reg", ("mark_debug", "true")]
         attrs1 = ["keep", "async_reg"]
-        ios = [a, b, q]
+        ios = [a, b, q, q2]
         f = m.get_fragment()
         if nd:
-            r0.attr = NDSet(attrs0, "attr_r0"); r1.attr = NDSet(attrs1, "attr_r1"); a.attr = set(attrs1)
-            ios = NDSet(ios, "ios")
+            r0.attr = NDSet(attrs0, "attr_r0"); r1.attr = set(attrs1); a.attr = set(attrs1)
+            ios = set(ios)
             f.specials = NDSet(f.specials, "specials")
         else:
             r0.attr = set(attrs0); r1.attr = set(attrs1); a.attr = set(attrs1)
@@ -267,5 +271,5 @@ def job_set_order():
 
     return run_pysym("emitted_text_set_iteration_order", body, ["text_independent_of_set_iteration_order"], required_events=["emitted", "attributes_emitted"],
                      funcs=["litex.gen.fhdl.verilog.convert", "litex.gen.fhdl.verilog._generate_attribute", "litex.gen.fhdl.verilog._generate_module/_generate_signals/_generate_specials"],
-                     cfg=dict(nondeterministic_sets=["attr of r0 (2 str + 1 tuple)", "attr of r1 (2 str)", "ios (3)", "fragment.specials (3)"], orders=432),
-                     replay_dir=rdir(), timeout_ms=60000, max_paths=20000)
+                     cfg=dict(nondeterministic_sets=["attr of r0 (2 str + 1 tuple)", "fragment.specials (5: two equally named memories, their ports, an instance)"], orders=6 * 120),
+                     replay_dir=rdir(), timeout_ms=60000, max_paths=400000)
